@@ -1484,6 +1484,225 @@ theorem bestPathAux_spec (hw : ∀ e ∈ g.arcs, 0 ≤ e.2.2) {s : LibSt} (hI : 
       exact ih u (c :: acc) (w + cst) hw' hlast' (by omega) (by omega) p hp
 end
 
+/-! Termination of the main loop -/
+
+/-- Sum of the labels of the vertices `0 … n-1` (labels are ≥ 0 under the invariant). -/
+def labSum (n : Nat) (dist : Nat → Int) : Nat := ((List.range n).map fun v => (dist v).toNat).sum
+
+theorem labSum_succ (n : Nat) (dist : Nat → Int) :
+    labSum (n + 1) dist = labSum n dist + (dist n).toNat := by
+  simp [labSum, List.range_succ]
+
+theorem labSum_congr {n : Nat} {d d' : Nat → Int} (h : ∀ x, x < n → d' x = d x) :
+    labSum n d' = labSum n d := by
+  induction n with
+  | zero => rfl
+  | succ n ih =>
+    rw [labSum_succ, labSum_succ, ih (fun x hx => h x (by omega)), h n (by omega)]
+
+/-- Lowering one label below `n` lowers the sum. -/
+theorem labSum_lt {n : Nat} {d d' : Nat → Int} {v : Nat} (hv : v < n)
+    (hsame : ∀ x, x ≠ v → d' x = d x) (hlt : (d' v).toNat < (d v).toNat) :
+    labSum n d' + 1 ≤ labSum n d := by
+  induction n with
+  | zero => omega
+  | succ n ih =>
+    rw [labSum_succ, labSum_succ]
+    by_cases hvn : v = n
+    · subst hvn
+      rw [labSum_congr (n := v) (d := d) (d' := d') (fun x hx => hsame x (by omega))]
+      omega
+    · have := ih (by omega)
+      rw [hsame n (fun e => hvn e.symm)]
+      omega
+
+theorem length_insertWalk_le (dist : Nat → Int) (v : Nat) : ∀ l : List Nat,
+    (insertWalk dist v l).length ≤ l.length + 1 := by
+  intro l
+  induction l with
+  | nil => simp [insertWalk]
+  | cons c rest ih =>
+    unfold insertWalk
+    split
+    · simp; omega
+    · split <;> simp
+
+theorem length_pushOrdered_le (dist : Nat → Int) (l : List Nat) (v : Nat) :
+    (pushOrdered dist l v).length ≤ l.length + 1 := by
+  unfold pushOrdered
+  split
+  · simp
+  · split
+    · simp
+    · exact length_insertWalk_le dist v l
+
+theorem length_relaxOne_visiting (dest cur v : Nat) (w : Int) (s : LibSt) :
+    (relaxOne dest cur v w s).visiting.length ≤ s.visiting.length + 1 := by
+  unfold relaxOne
+  simp only
+  split
+  · simp
+  · exact length_pushOrdered_le _ _ _
+
+/-- The termination measure: twice the label sum plus the length of the work list. -/
+def phi (n : Nat) (s : LibSt) : Nat := 2 * labSum n s.dist + s.visiting.length
+
+section
+variable {g : Graph} {src dest : Nat}
+
+theorem relaxArcs_phi (hw : ∀ e ∈ g.arcs, 0 ≤ e.2.2) (hwf : ∀ e ∈ g.arcs, e.2.1 < g.n) {cur : Nat} :
+    ∀ (todo : List (Nat × Int)) (s s' : LibSt), Core g src dest s → s.dist cur < infDist →
+      (∀ p ∈ todo, (cur, p.1, p.2) ∈ g.arcs) → relaxArcs dest cur todo s = .ok s' →
+      phi g.n s' ≤ phi g.n s := by
+  intro todo
+  induction todo with
+  | nil => intro s s' _ _ _ h; simp [relaxArcs] at h; subst h; exact Nat.le_refl _
+  | cons p rest ih =>
+    obtain ⟨v, w⟩ := p
+    intro s s' hI hcur hsub h
+    have ha : (cur, v, w) ∈ g.arcs := hsub (v, w) List.mem_cons_self
+    have hsub' : ∀ p ∈ rest, (cur, p.1, p.2) ∈ g.arcs := fun p hp => hsub p (List.mem_cons_of_mem _ hp)
+    simp only [relaxArcs] at h
+    split at h
+    · rename_i hlt
+      split at h
+      · cases h
+      · obtain ⟨hI1, hdv, hdx, _, _, _, hvcur⟩ := relaxOne_core hw hI hcur ha hlt
+        have hcur1 : (relaxOne dest cur v w s).dist cur < infDist := by
+          rw [hdx cur (fun e => hvcur e.symm)]; exact hcur
+        have h1 := ih (relaxOne dest cur v w s) s' hI1 hcur1 hsub' h
+        have hvn : v < g.n := hwf _ ha
+        have hlo := hI.lo cur
+        have hw0 : 0 ≤ w := hw _ ha
+        have hsum := labSum_lt (n := g.n) (d := s.dist) (d' := (relaxOne dest cur v w s).dist) hvn hdx
+          (by rw [hdv]; omega)
+        have hlen := length_relaxOne_visiting dest cur v w s
+        unfold phi at h1 ⊢
+        omega
+    · exact ih s s' hI hcur hsub' h
+
+/-- One iteration of the main loop with a non-empty work list: the next state satisfies the
+invariant again and the measure has dropped; the loop error does not occur. -/
+theorem loop_step (hw : ∀ e ∈ g.arcs, 0 ≤ e.2.2) (hwf : ∀ e ∈ g.arcs, e.2.1 < g.n) {s : LibSt}
+    (hI : LoopInv g src dest s) {cur : Nat} {rest : List Nat} (hv : s.visiting = cur :: rest) :
+    ∃ s₁, (∀ fuel, evalLoop (adjOf g.arcs) dest (fuel + 1) s = evalLoop (adjOf g.arcs) dest fuel s₁) ∧
+      LoopInv g src dest s₁ ∧ phi g.n s₁ + 1 ≤ phi g.n s := by
+  obtain ⟨hcur, hcd⟩ := hI.lst cur (by rw [hv]; exact List.mem_cons_self)
+  have hsub : ∀ u ∈ rest, u ∈ s.visiting := fun u hu => by rw [hv]; exact List.mem_cons_of_mem _ hu
+  have hset0 : ∀ u, s.dist u < infDist → u ≠ dest → u ≠ cur → u ∈ rest ∨ Done g s u := by
+    intro u hu hud huc
+    rcases hI.set u hu hud with h | h
+    · rw [hv] at h
+      rcases List.mem_cons.mp h with h | h
+      · exact absurd h huc
+      · exact Or.inl h
+    · exact Or.inr h
+  have hphi0 : ∀ oc, phi g.n { s with visiting := rest, oldCurrent := oc } + 1 ≤ phi g.n s := by
+    intro oc; simp only [phi, hv, List.length_cons]; omega
+  by_cases hold : s.oldCurrent = some cur
+  · refine ⟨{ s with visiting := rest }, ?_, ?_, hphi0 s.oldCurrent⟩
+    · intro fuel; simp only [evalLoop, hv, hold, if_true]
+    · refine { toCore := hI.toCore.congr rfl rfl rfl rfl hsub, set := ?_, old := ?_ }
+      · intro u hu hud
+        by_cases huc : u = cur
+        · subst huc; right; exact (hI.old u hold).congr rfl rfl
+        · rcases hset0 u hu hud huc with h | h
+          · exact Or.inl h
+          · exact Or.inr (h.congr rfl rfl)
+      · intro u hu; exact (hI.old u hu).congr rfl rfl
+  · by_cases hprune : s.dist cur ≥ s.best
+    · refine ⟨{ s with visiting := rest, oldCurrent := some cur }, ?_, ?_, hphi0 (some cur)⟩
+      · intro fuel; simp only [evalLoop, hv, hold, if_false, hprune, if_true]
+      · have hdone : Done g s cur := Or.inl hprune
+        refine { toCore := hI.toCore.congr rfl rfl rfl rfl hsub, set := ?_, old := ?_ }
+        · intro u hu hud
+          by_cases huc : u = cur
+          · subst huc; right; exact hdone.congr rfl rfl
+          · rcases hset0 u hu hud huc with h | h
+            · exact Or.inl h
+            · exact Or.inr (h.congr rfl rfl)
+        · intro u hu
+          have : u = cur := (Option.some.inj hu).symm
+          subst this; exact hdone.congr rfl rfl
+    · have hcore1 : Core g src dest { s with visiting := rest, oldCurrent := some cur } :=
+        hI.toCore.congr rfl rfl rfl rfl hsub
+      have hset1 : ∀ u, s.dist u < infDist → u ≠ dest → u ≠ cur →
+          u ∈ rest ∨ Done g { s with visiting := rest, oldCurrent := some cur } u := by
+        intro u hu hud huc
+        rcases hset0 u hu hud huc with h | h
+        · exact Or.inl h
+        · exact Or.inr (h.congr rfl rfl)
+      obtain ⟨s', hr, hI', hc', hm', hb', ho', hs', hrel'⟩ :=
+        relaxArcs_inv (g := g) (src := src) (dest := dest) hw (adjOf g.arcs cur)
+          { s with visiting := rest, oldCurrent := some cur } hcore1 hcur
+          (fun p hp => mem_adjOf.mp hp) hset1
+      have hphi := relaxArcs_phi (g := g) (src := src) (dest := dest) hw hwf (adjOf g.arcs cur)
+        { s with visiting := rest, oldCurrent := some cur } s' hcore1 hcur
+        (fun p hp => mem_adjOf.mp hp) hr
+      refine ⟨s', ?_, ?_, by have := hphi0 (some cur); omega⟩
+      · intro fuel; simp only [evalLoop, hv, hold, if_false, hprune, hr]
+      · have hdone : Done g s' cur := by
+          right
+          intro v w ha
+          exact hrel' (v, w) (mem_adjOf.mpr ha)
+        refine { toCore := hI', set := ?_, old := ?_ }
+        · intro u hu hud
+          by_cases huc : u = cur
+          · subst huc; right; exact hdone
+          · exact hs' u hu hud huc
+        · intro u hu
+          rw [ho'] at hu
+          have : u = cur := (Option.some.inj hu).symm
+          subst this; exact hdone
+
+/-- The loop ends by itself, with the invariant and an empty work list, as soon as the fuel covers
+the measure; it never returns the loop error. -/
+theorem evalLoop_total (hw : ∀ e ∈ g.arcs, 0 ≤ e.2.2) (hwf : ∀ e ∈ g.arcs, e.2.1 < g.n) :
+    ∀ (fuel : Nat) (s : LibSt), LoopInv g src dest s → phi g.n s ≤ fuel →
+      ∃ s', evalLoop (adjOf g.arcs) dest fuel s = .ok (some s') ∧ LoopInv g src dest s' ∧
+        s'.visiting = [] := by
+  intro fuel
+  induction fuel with
+  | zero =>
+    intro s hI hphi
+    have hl : s.visiting = [] := by
+      have : s.visiting.length = 0 := by unfold phi at hphi; omega
+      exact List.length_eq_zero_iff.mp this
+    exact ⟨s, by simp [evalLoop, hl], hI, hl⟩
+  | succ fuel ih =>
+    intro s hI hphi
+    cases hv : s.visiting with
+    | nil => exact ⟨s, by simp only [evalLoop, hv], hI, hv⟩
+    | cons cur rest =>
+      obtain ⟨s₁, hstep, hI₁, hdec⟩ := loop_step hw hwf hI hv
+      obtain ⟨s', hr, hI', he⟩ := ih s₁ hI₁ (by omega)
+      exact ⟨s', by rw [hstep]; exact hr, hI', he⟩
+end
+
+theorem labSum_le (n : Nat) (d : Nat → Int) (B : Nat) (h : ∀ v, (d v).toNat ≤ B) :
+    labSum n d ≤ n * B := by
+  induction n with
+  | zero => simp [labSum]
+  | succ n ih =>
+    rw [labSum_succ]
+    have := h n
+    have e : (n + 1) * B = n * B + B := by rw [Nat.add_mul]; simp
+    omega
+
+theorem phi_libInit_le (g : Graph) (src : Nat) : phi g.n (libInit src) ≤ libFuel g := by
+  have h := labSum_le g.n (libInit src).dist infDist.toNat (by
+    intro v
+    simp only [libInit]
+    split
+    · simp
+    · exact Nat.le_refl _)
+  have hB : 1 ≤ infDist.toNat := by decide
+  have e : infDist.toNat * (2 * g.n + 1) = 2 * (g.n * infDist.toNat) + infDist.toNat := by
+    rw [Nat.mul_add, Nat.mul_one, Nat.mul_comm infDist.toNat (2 * g.n), Nat.mul_assoc]
+  unfold phi libFuel
+  simp only [libInit, List.length_singleton] at h ⊢
+  omega
+
 /-- Lexicographic order on (label, stamp). -/
 def KeyLt (dist : Nat → Int) (stamp : Nat → Nat) (a b : Nat) : Prop :=
   dist a < dist b ∨ (dist a = dist b ∧ stamp a < stamp b)
@@ -1646,52 +1865,82 @@ theorem libShortest_spec (g : Graph) (hw : ∀ e ∈ g.arcs, 0 ≤ e.2.2)
         have := hmin c hc
         omega
 
+/-- **The ported loop terminates by itself**: whenever the fuel covers the initial value of the
+measure `phi` (which drops in every iteration) the answer is not `outOfFuel`. Stated for an
+arbitrary fuel so that nothing tempts the elaborator to unfold the loop. -/
+theorem libShortest_terminates_of_fuel (g : Graph) (hw : ∀ e ∈ g.arcs, 0 ≤ e.2.2)
+    (hwf : ∀ e ∈ g.arcs, e.2.1 < g.n) {src dest : Nat} (hsd : src ≠ dest) (fuel : Nat)
+    (hfuel : phi g.n (libInit src) ≤ fuel) :
+    libShortest fuel g.n (adjOf g.arcs) src dest ≠ .outOfFuel := by
+  obtain ⟨s', hr, _, _⟩ := evalLoop_total (g := g) (src := src) (dest := dest) hw hwf fuel
+    (libInit src) (libInit_inv g hsd) hfuel
+  unfold libShortest
+  rw [hr]
+  simp only
+  split
+  · split <;> simp
+  · simp
+
+/-- … in particular with the fuel the port uses. -/
+theorem libShortest_terminates (g : Graph) (hw : ∀ e ∈ g.arcs, 0 ≤ e.2.2)
+    (hwf : ∀ e ∈ g.arcs, e.2.1 < g.n) {src dest : Nat} (hsd : src ≠ dest) :
+    libShortest (libFuel g) g.n (adjOf g.arcs) src dest ≠ .outOfFuel :=
+  libShortest_terminates_of_fuel g hw hwf hsd (libFuel g) (phi_libInit_le g src)
+
 theorem lookup_libTable (g : Graph) (d : Nat) :
     lookup (libTable g) d = if d < g.n ∧ d ≠ 0 then libNextHop g d else none := by
   unfold libTable
   rw [lookup_filterMap_key (fun d => libNextHop g d) d (List.range g.n)]
   simp [List.mem_range]
 
+/-- From the specification of a `Shortest` answer to the next hop taken from it (the answer is a
+variable here: nothing about the loop has to be evaluated). -/
+theorem hopOf_spec {g : Graph}
+    (hcost : ∀ d c, Walk g 0 d c → ∃ c', Walk g 0 d c' ∧ c' < infDist) (d : Nat) (r : LibRes)
+    (hspec : match r with
+      | .ok dist p => IsDist g 0 d dist ∧
+          ∃ h rest w c, p = 0 :: h :: rest ∧ (0, h, w) ∈ g.arcs ∧ Walk g h d c ∧ w + c = dist
+      | .noPath => ∀ c, Walk g 0 d c → infDist ≤ c
+      | .loopErr => False
+      | .outOfFuel => True
+      | .badPred => False)
+    (hnf : r ≠ .outOfFuel) :
+    (∀ h, hopOf r = some h → ∃ w c, (0, h, w) ∈ g.arcs ∧ Walk g h d c ∧ IsDist g 0 d (w + c)) ∧
+    (Reachable g 0 d → (hopOf r).isSome = true) := by
+  cases r with
+  | ok dist p =>
+    obtain ⟨hdist, h, rest, w, c, hp, ha, hwalk, hsum⟩ := hspec
+    subst hp
+    refine ⟨?_, fun _ => rfl⟩
+    intro h' hh'
+    simp only [hopOf] at hh'
+    cases hh'
+    exact ⟨w, c, ha, hwalk, by rw [hsum]; exact hdist⟩
+  | noPath =>
+    refine ⟨fun h hh => by simp [hopOf] at hh, ?_⟩
+    rintro ⟨c, hc⟩
+    obtain ⟨c', hc', hlt⟩ := hcost d c hc
+    have := hspec c' hc'
+    omega
+  | loopErr => exact hspec.elim
+  | outOfFuel => exact absurd rfl hnf
+  | badPred => exact hspec.elim
+
 /-- **The routing table computed with the ported library loop is right** — for every graph with
-weights ≥ 0 and every iteration order of the arc maps (the order of `g.arcs`), provided the loop
-ends within the port's fuel (`outOfFuel` does not occur: termination of the main loop is not
-proved) and reachable destinations are reachable at a cost below `MaxInt64 - 2` (the library's
-"infinity"). -/
+weights ≥ 0 and every iteration order of the arc maps (the order of `g.arcs`), provided reachable
+destinations are reachable at a cost below `MaxInt64 - 2` (the library's "infinity"). -/
 theorem libTable_correct (g : Graph) (hw : ∀ e ∈ g.arcs, 0 ≤ e.2.2)
     (hwf : ∀ e ∈ g.arcs, e.2.1 < g.n)
-    (hcost : ∀ d c, Walk g 0 d c → ∃ c', Walk g 0 d c' ∧ c' < infDist)
-    (hterm : ∀ d, d < g.n → d ≠ 0 →
-      libShortest (libFuel g) g.n (adjOf g.arcs) 0 d ≠ .outOfFuel) :
+    (hcost : ∀ d c, Walk g 0 d c → ∃ c', Walk g 0 d c' ∧ c' < infDist) :
     MinCostNextHop g (lookup (libTable g)) := by
   have key : ∀ d, d < g.n → d ≠ 0 →
       (∀ h, libNextHop g d = some h →
         ∃ w c, (0, h, w) ∈ g.arcs ∧ Walk g h d c ∧ IsDist g 0 d (w + c)) ∧
       (Reachable g 0 d → (libNextHop g d).isSome = true) := by
     intro d hd hd0
-    have hspec := libShortest_spec g hw hwf (src := 0) (dest := d) (by omega) (fun e => hd0 e.symm)
-      (libFuel g)
-    have hnf := hterm d hd hd0
-    unfold libNextHop
-    cases hres : libShortest (libFuel g) g.n (adjOf g.arcs) 0 d with
-    | ok dist p =>
-      rw [hres] at hspec
-      obtain ⟨hdist, h, rest, w, c, hp, ha, hwalk, hsum⟩ := hspec
-      subst hp
-      refine ⟨?_, fun _ => rfl⟩
-      intro h' hh'
-      simp only at hh'
-      cases hh'
-      exact ⟨w, c, ha, hwalk, by rw [hsum]; exact hdist⟩
-    | noPath =>
-      rw [hres] at hspec
-      refine ⟨fun h hh => by simp at hh, ?_⟩
-      rintro ⟨c, hc⟩
-      obtain ⟨c', hc', hlt⟩ := hcost d c hc
-      have := hspec c' hc'
-      omega
-    | loopErr => rw [hres] at hspec; exact hspec.elim
-    | outOfFuel => exact absurd hres hnf
-    | badPred => rw [hres] at hspec; exact hspec.elim
+    exact hopOf_spec hcost d _
+      (libShortest_spec g hw hwf (src := 0) (dest := d) (by omega) (fun e => hd0 e.symm) (libFuel g))
+      (libShortest_terminates g hw hwf (src := 0) (dest := d) (fun e => hd0 e.symm))
   constructor
   · intro d
     rw [lookup_libTable]
@@ -1861,5 +2110,22 @@ theorem forwardTargets_unicast (table : Table) (clas sent : List Nat) (d : Nat) 
       intro x hx hxd
       have : x = d := by simpa using hxd
       exact hd (this ▸ hx)
+
+/-- A checkable sufficient condition for "reachable destinations are reachable below the library's
+infinity": the Bellman–Ford distances from `0` are below it. -/
+theorem cost_bound_of_bf {g : Graph} (hw : ∀ e ∈ g.arcs, 0 ≤ e.2.2) (hwf : ∀ e ∈ g.arcs, e.2.1 < g.n)
+    (hn : 0 < g.n)
+    (hb : ∀ d, d < g.n → ((bf g 0).get d).all (fun c => decide (c < infDist)) = true) :
+    ∀ d c, Walk g 0 d c → ∃ c', Walk g 0 d c' ∧ c' < infDist := by
+  intro d c hc
+  have hd : d < g.n := by
+    rcases walk_end_lt hwf hc with h | h
+    · rw [h]; exact hn
+    · exact h
+  obtain ⟨c', hc', _⟩ := bf_complete hw hwf hn hc
+  refine ⟨c', bf_sound g 0 d c' hc', ?_⟩
+  have := hb d hd
+  rw [hc'] at this
+  simpa using this
 
 end Dtn7.Dtlsr.Lemmas
